@@ -373,8 +373,10 @@ def check(rep: Any, rng: random.Random, big: bool, hash_seeds: List[int]) -> boo
                             "runs": {}, "diff_classes": {}, "two_frameworks": 0, "three_sources": 0, "with_exact": 0}
     terms, idx = [], []
     n_prep = 0
+    n_viol = [0]
     for i, s in enumerate(specs):
-        outs = [outcome(s, run=(r == 0)) for r in range(REPS)]
+        # runs are observed in the fresh interpreters only (this process carries the observation wrappers of the other families)
+        outs = [outcome(s, run=False) for r in range(REPS)]
         where = [("in-process", r) for r in range(REPS)] + [(f"PYTHONHASHSEED={hs}", r) for hs in sub for r in range(REPS)]
         allo = outs + [o for hs in sub for o in sub[hs][i]]
         n_prep += len(allo)
@@ -405,6 +407,10 @@ def check(rep: Any, rng: random.Random, big: bool, hash_seeds: List[int]) -> boo
             if c not in ("joins", "accept-vs-reject", "reject-reason", "steps") and not single and all(p in KNOWN_CLASSES for p in parts):
                 for p in parts:
                     rep.finding(KNOWN_CLASSES[p], f"plan differs between preparations ({p}; polymorphic-link family)", replay)
+                continue
+            n_viol[0] += 1
+            found = True
+            if n_viol[0] > 6:
                 continue
             a = o0["joins"] if o0["accepted"] else [o0["exc"], o0["msg"][:80]]
             b = o["joins"] if o["accepted"] else [o["exc"], o["msg"][:80]]
@@ -451,12 +457,25 @@ def check(rep: Any, rng: random.Random, big: bool, hash_seeds: List[int]) -> boo
                     f"observed {o0.get('joins', [o0.get('exc'), o0.get('msg')])}", {"kind": "poly", "spec": s, "class": "model"})
         found = True
     info["model_disagreements"] = len(bad)
+    info["nondeterministic_requests_reported_as_violation"] = n_viol[0]
     info["coq"] = {k: v for k, v in cinfo.items() if isinstance(v, (int, float, str))}
     info["preparations"] = n_prep
     LAST_INFO.clear()
     LAST_INFO.update(info)
     rep.count(n_prep)
     return found
+
+
+def replay(r: Dict[str, Any]) -> None:
+    from pathlib import Path
+    s = r["spec"]
+    verif = str(Path(__file__).resolve().parent.parent)
+    sub = run_subprocesses([s], list(r.get("hash_seeds") or range(1, 7)), Path(verif) / "_build" / "C04", verif)
+    outs = [("in-process", outcome(s)) for _ in range(REPS)] + [(f"PYTHONHASHSEED={hs}", o) for hs, v in sub.items() if not isinstance(v, dict) for o in v[0]]
+    print("classes (parent):", [c["parent"] for c in s["classes"]], "consumer of", s["use"], "links", json.dumps(s["links"]))
+    for w, o in outs:
+        print(f"  {w:18s}", [j[0] for j in o["joins"]] if o["accepted"] else (o["exc"], o["msg"][:80]), o.get("run"))
+    print("difference classes w.r.t. the first preparation:", sorted({str(_diff(outs[0][1], o)) for _, o in outs[1:]}))
 
 
 if __name__ == "__main__":
